@@ -244,6 +244,17 @@ pairs end in 2, 1, 0 -/
 example : (List.range 3).map (nvHandleId 3) = [2, 1, 0] ∧ (List.range 3).map (nvPairLocation 3) = [2, 1, 0] ∧
     (List.range 3).map (fun i => handleLayout true false 3 i) = [(2, 0), (1, 1), (0, 2)] := by decide
 
+/-- VALUE RANGE: the result theorems are over `Int` — the model stores the response fields as unbounded
+integers, exactly the value the link layer delivered, with no wrap at 32 or 64 bits (a generation
+duration of 5 s in ns, a 32-bit create id with the top bit set, 2^63−1 …). Any narrowing in the code
+(`c_int32(...)`, truncation on the way to the host) breaks the correspondence and the handle oracle, which
+draws fields from the classes 0, 1, 2^31−1, 2^31, 2^32−1, 2^32, 5·10^9, 2^63−1. -/
+example : (storeAll okFieldsExec (List.replicate 10 none) 0
+    [[0, 4294967296, 5, 1, 9223372036854775807, 1000, 1, 5000000000, 2147483648, 3]]).map
+      (fun a => (a[7]?, a[8]?, a[4]?, a[1]?)) =
+    some (some (some 5000000000), some (some 2147483648), some (some 9223372036854775807),
+          some (some 4294967296)) := by decide
+
 /-- non-vacuity of the result theorems: two responses stored into a fresh array of 20 entries -/
 example : (storeAll okFieldsExec (List.replicate 20 none) 0
     [[0, 1, 102, 0, 4, 5, 6, 7, 8, 3], [0, 2, 103, 0, 5, 5, 6, 70, 80, 1]]).map (fun a => a[1 * 10 + 7]?) =
